@@ -60,6 +60,8 @@ type c11conn struct {
 	id     int64 // identity proven on this transport according to the handshake replies the harness saw
 	closed bool
 	inbox  []*packet.TransferPacket
+	// congested: the link's buffers are tiny, the server's writes to it block until the harness reads
+	congested bool
 }
 
 type c11step struct {
@@ -155,8 +157,8 @@ func init() {
 	Register(&Scenario{
 		ID:    "C11",
 		Level: "exploration",
-		Rule: "each run wires a real node with the command executor and all four handler sets, registers clients A, B, S (online) and O (offline) over the wire, opens U0 (no handshake) and U1 (challenge for A requested, never answered), creates a per-run drawn subset of objects through the real services (mappings A>O, B>O, socks A>B, a code-activated mapping A>B, unactivated codes of A and B, HTTP domain mappings of A and B) and then sends 4-10 drawn commands. " +
-			"The command type is drawn from the table read from the live registry plus the special-cased types of handleCommandPacket plus a few unregistered types; sender in {U0,U1,A,B,S}; target object in {A's, B's, shared, nonexistent}; identity fields (SenderId/ReceiverId/Token and client_id-like body fields) in {absent, victim's}; packet type in {JsonCommand, CommandResp}; optionally one injected store error, optionally the sender's transport is closed right after the request was written. Two composite steps answer a pending DNS forward / HTTP proxy request from a drawn connection. A fourth kind of step overlaps two commands of different connections: a storage operation inside the first command's processing is held for 3 s, 47 s or 95 s of simulated time (shorter and longer than the executor's command timeout) and the second command is sent 0.2 s, 33 s or 61 s after the first, so that handlers outlive their Execute call while another connection's command is created and answered. Every command carries data only it supplies (description, new subdomain, addresses): a stored record with that data must name the identity of the connection the command arrived on, and neither an answer with another connection's command id nor another command's own data may arrive on a transport (unless a record naming the receiver holds it). " +
+		Rule: "each run wires a real node with the command executor and all four handler sets, registers clients A, B, S (online) and O (offline) over the wire, opens U0 (no handshake) and U1 (challenge for A requested, never answered), creates a per-run drawn subset of objects through the real services (mappings A>O, B>O, socks A>B, a listener-less mapping 0>B and a target-less mapping A>0 (client id 0 = nobody), a code-activated mapping A>B, unactivated codes of A and B, HTTP domain mappings of A and B) and then sends 4-10 drawn commands. " +
+			"The command type is drawn from the table read from the live registry plus the special-cased types of handleCommandPacket plus a few unregistered types; sender in {U0,U1,A,B,S}; target object in {A's, B's, shared, nonexistent}; identity fields (SenderId/ReceiverId/Token and client_id-like body fields) in {absent, victim's}; packet type in {JsonCommand, CommandResp}; optionally one injected store error, optionally the sender's transport is closed right after the request was written. Two composite steps answer a DNS forward / HTTP proxy request (to B, or to T whose link has a per-run drawn buffer of 48 bytes, 200 bytes or unbounded, so that the server's write of the request blocks until the harness reads) from a drawn connection, once while the request is still being delivered and once while the server waits. A fourth kind of step overlaps two commands of different connections: a storage operation inside the first command's processing is held for 3 s, 47 s or 95 s of simulated time (shorter and longer than the executor's command timeout) and the second command is sent 0.2 s, 33 s or 61 s after the first, so that handlers outlive their Execute call while another connection's command is created and answered. Every command carries data only it supplies (description, new subdomain, addresses): a stored record with that data must name the identity of the connection the command arrived on, and neither an answer with another connection's command id nor another command's own data may arrive on a transport (unless a record naming the receiver holds it). " +
 			"Around every command the whole store and every transport's inbox are diffed. Non-trivial: at least one command that names an existing harness-created object was sent by an unauthenticated connection, by a non-party, or with forged identity fields and was written to the server, or a forged answer was injected while the server really had the request pending at B. Distinct = distinct schedule hashes; w.State counts (command, sender role, target ownership, forge, packet type, outcome) cells.",
 		Real: []string{"internal/command CommandRegistry/CommandExecutor and the HTTP-domain handlers", "internal/app/server connection-code, mapping, config and HTTP-domain command handler sets, ServerAuthHandler", "internal/protocol/session SessionManager: handleCommandPacket special cases (SOCKS5, DNS resolve/query, traffic report, disconnect, HTTP proxy response), client registry, BaseAdapter read loop", "internal/cloud services/repos (port mappings, connection codes, HTTP domain mappings, clients) on the real memory storage backend", "internal/stream StreamProcessor on both ends"},
 		Stub: []string{"transport: simnet links", "peers: scripted clients (they never answer forwarded requests unless the step says so)", "slow storage: simstore Sync hook sleeping in the calling task", "no second node (cross-node DNS/HTTP forwarding is not reachable)"},
@@ -228,7 +230,8 @@ func c11Run(w *simrt.World, tier string) {
 	}
 
 	// ---- the whole plan is drawn here, before any other task has run
-	objMask := c.Intn(256, "objects") // zero draw = everything present
+	objMask := c.Intn(1024, "objects")             // zero draw = everything present
+	tCap := []int{48, 0, 200}[c.Intn(3, "t.link")] // buffer of T's link; 0 = unbounded
 	bOnline := c.Intn(4, "b.offline") != 3
 	nsteps := 4 + c.Intn(7, "nsteps")
 	if tier != "quick" {
@@ -272,7 +275,11 @@ func c11Run(w *simrt.World, tier string) {
 	// ---- clients
 	link := simnet.LinkConfig{LawAB: simnet.LawAll, LawBA: simnet.LawAll}
 	mk := func(name, addr string, register bool) *c11conn {
-		cc := &c11conn{name: name, cl: node.Connect(name, addr, link)}
+		l := link
+		if name == "T" {
+			l.Capacity = tCap
+		}
+		cc := &c11conn{name: name, cl: node.Connect(name, addr, l), congested: name == "T" && tCap > 0}
 		if register {
 			resp, ok := cc.cl.Register("control")
 			if !ok || resp == nil || !resp.Success {
@@ -288,8 +295,12 @@ func c11Run(w *simrt.World, tier string) {
 	cB := mk("B", "10.1.0.2:4000", true)
 	cS := mk("S", "10.1.0.3:4000", true)
 	cO := mk("O", "10.1.0.4:4000", true)
-	if cA == nil || cB == nil || cS == nil || cO == nil {
+	cT := mk("T", "10.1.0.7:4000", true) // only ever the target of forwarded requests
+	if cA == nil || cB == nil || cS == nil || cO == nil || cT == nil {
 		return
+	}
+	if cT.congested {
+		w.Probe("world.t-link-congested")
 	}
 	cO.cl.Close()
 	cO.closed = true
@@ -304,13 +315,13 @@ func c11Run(w *simrt.World, tier string) {
 		cB.closed = true
 		w.Probe("world.b-offline")
 	}
-	r.conns = []*c11conn{u0, u1, cA, cB, cS}
+	r.conns = []*c11conn{u0, u1, cA, cB, cS, cT} // senders are drawn among the first five
 	w.Sleep(337 * time.Millisecond)
 	for _, cc := range append(r.conns, cO) {
 		defer cc.cl.Close()
 	}
 	// every client's secret key belongs to that client alone
-	for _, cc := range []*c11conn{cA, cB, cS, cO} {
+	for _, cc := range []*c11conn{cA, cB, cS, cO, cT} {
 		if cc.cl.Secret != "" {
 			r.objs = append(r.objs, &c11obj{kind: "client", name: "secret." + cc.name, idents: []string{cc.cl.Secret}, parties: map[int64]bool{cc.id: true}})
 		}
@@ -336,6 +347,14 @@ func c11Run(w *simrt.World, tier string) {
 	}
 	if has(5) {
 		r.mkCode("K.B.used", B, 6, A, "M.A>B.code")
+	}
+	if has(8) {
+		// a mapping without a listen client (the node itself listens, as for HTTP mappings made by the
+		// management API): its only party is the target client; client id 0 is nobody
+		r.mkMapping("M.0>B.http", 0, B, models.ProtocolHTTP, 9)
+	}
+	if has(9) {
+		r.mkMapping("M.A>0", A, 0, models.ProtocolTCP, 10)
 	}
 	if has(6) {
 		r.mkDomain("D.A", A, "c11a", 7)
@@ -420,7 +439,7 @@ func (r *c11run) logf(format string, a ...any) {
 }
 
 func (r *c11run) mkMapping(name string, listen, target int64, proto models.Protocol, n int) *c11obj {
-	sk := fmt.Sprintf("sk-c11-%d-%s", n, strings.Repeat("x", 8))
+	sk := fmt.Sprintf("sk_c11_%d_%s", n, strings.Repeat("x", 8))
 	taddr := fmt.Sprintf("10.9.%d.1:%d", n, 7000+n)
 	laddr := fmt.Sprintf("0.0.0.0:%d", 17000+n)
 	m, err := r.node.Cloud.CreatePortMapping(&models.PortMapping{
@@ -433,7 +452,12 @@ func (r *c11run) mkMapping(name string, listen, target int64, proto models.Proto
 		r.w.Violationf("C11:harness", "creating mapping %s failed: %v", name, err)
 		return nil
 	}
-	o := &c11obj{kind: "mapping", name: name, id: m.ID, idents: []string{m.ID, sk, taddr, laddr}, parties: map[int64]bool{listen: true, target: true}}
+	o := &c11obj{kind: "mapping", name: name, id: m.ID, idents: []string{m.ID, sk, taddr, laddr}, parties: map[int64]bool{}}
+	for _, id := range []int64{listen, target} {
+		if id != 0 { // 0 is "no client", never an identity
+			o.parties[id] = true
+		}
+	}
 	r.objs = append(r.objs, o)
 	return o
 }
@@ -630,6 +654,7 @@ type c11change struct {
 	parties  map[int64]bool // parties of the known objects and the clients named in text
 	clients  map[int64]bool // clients named in text
 	names    []string
+	objs     []*c11obj // known objects named in text
 }
 
 // diff lists the keys that changed between two dumps (expiry by lifetime excluded)
@@ -675,13 +700,14 @@ func (r *c11run) diff(a, b *c11snap) []c11change {
 				}
 			}
 			if hit {
+				ch.objs = append(ch.objs, o)
 				ch.names = append(ch.names, o.name)
 				for p := range o.parties {
 					ch.parties[p] = true
 				}
 			}
 		}
-		for _, n := range []string{"A", "B", "S", "O"} {
+		for _, n := range []string{"A", "B", "S", "O", "T"} {
 			if c11has(text, strconv.FormatInt(r.ids[n], 10)) {
 				ch.clients[r.ids[n]] = true
 				ch.parties[r.ids[n]] = true
@@ -695,7 +721,7 @@ func (r *c11run) diff(a, b *c11snap) []c11change {
 }
 
 func (r *c11run) who(id int64) string {
-	for _, n := range []string{"A", "B", "S", "O"} {
+	for _, n := range []string{"A", "B", "S", "O", "T"} {
 		if r.ids[n] == id {
 			return n
 		}
@@ -861,6 +887,7 @@ type c11sent struct {
 	tgt     *c11obj
 	reqText string
 	markers []string // strings only this command supplied (description, new subdomain, addresses)
+	vals    []string // command id and the longer string values of the body (to recognise what it caused)
 	werr    error
 	outcome string
 	holdsFn func(o *c11obj) bool
@@ -909,6 +936,12 @@ func (r *c11run) prepare(s *c11step, snd *c11conn, t packet.CommandType) *c11sen
 	}
 	bb, _ := json.Marshal(b)
 	cp.CommandBody = string(bb)
+	c.vals = append(c.vals, cp.CommandId)
+	for _, k := range []string{"mapping_id", "tunnel_id", "query_id", "code", "domain", "description"} {
+		if v, ok := b[k].(string); ok && len(v) >= 6 {
+			c.vals = append(c.vals, v)
+		}
+	}
 	if len(b) == 0 && s.variant == 2 {
 		cp.CommandBody = ""
 	}
@@ -1085,16 +1118,29 @@ func (r *c11run) judge(cmds []*c11sent, before, after *c11snap, how string) {
 		return fmt.Sprintf("%s\nrequests:\n%s\nstore changes:\n%s\npackets received per transport:\n%s\nhistory:\n%s",
 			how, strings.Join(reqs, "\n"), strings.Join(cs, "\n"), strings.Join(ins, "\n"), strings.Join(r.hist, "\n"))
 	}
-	// the command a store change belongs to: the one whose own data it carries, else the first
-	culprit := func(text string) *c11sent {
+	// the command a store change belongs to: the one whose own data it carries, else the one whose
+	// request names the changed object; nil when an overlapped window does not tell
+	culprit := func(ch *c11change) *c11sent {
 		for _, c := range cmds {
 			for _, m := range c.markers {
-				if c11has(text, m) {
+				if c11has(ch.text, m) {
 					return c
 				}
 			}
 		}
-		return cmds[0]
+		for _, c := range cmds {
+			for _, o := range ch.objs {
+				for _, id := range o.idents {
+					if c11has(c.reqText, id) {
+						return c
+					}
+				}
+			}
+		}
+		if single {
+			return cmds[0]
+		}
+		return nil
 	}
 	sigName := func(c *c11sent) string {
 		if single {
@@ -1140,11 +1186,14 @@ func (r *c11run) judge(cmds []*c11sent, before, after *c11snap, how string) {
 		if ok {
 			continue
 		}
-		c := culprit(ch.text)
+		sn, role := "overlapped", "unknown-sender"
+		if c := culprit(&ch); c != nil {
+			sn, role = sigName(c), c.role
+		}
 		if allUnauth {
-			w.Violationf("C11:unauth:client-state-changed:"+sigName(c), "a command from an unauthenticated connection changed client-owned state (%s %s, belongs to %v)\n%s", ch.how, ch.key, ch.names, detail())
+			w.Violationf("C11:unauth:client-state-changed:"+sn, "a command from an unauthenticated connection changed client-owned state (%s %s, belongs to %v)\n%s", ch.how, ch.key, ch.names, detail())
 		} else {
-			w.Violationf("C11:foreign-state-changed:"+sigName(c)+":"+c.role, "the command changed state of objects the sending connection's identity is no party to (%s %s, belongs to %v)\n%s", ch.how, ch.key, ch.names, detail())
+			w.Violationf("C11:foreign-state-changed:"+sn+":"+role, "the command changed state of objects the sending connection's identity is no party to (%s %s, belongs to %v)\n%s", ch.how, ch.key, ch.names, detail())
 		}
 		return
 	}
@@ -1202,13 +1251,28 @@ func (r *c11run) judge(cmds []*c11sent, before, after *c11snap, how string) {
 	}
 
 	// (4) transports that sent nothing in this window
-	first := cmds[0]
 	for _, cc := range r.conns {
 		if sender[cc] != nil || len(cc.inbox) == 0 {
 			continue
 		}
+		// the command that made the server send this: the one whose request data the packet carries
+		first, firstName := cmds[0], "overlapped"
+		if single {
+			firstName = first.name
+		} else {
+			it := c11text(cc.inbox)
+		search:
+			for _, c := range cmds {
+				for _, v := range c.vals {
+					if c11has(it, v) {
+						first, firstName = c, c.name+":overlapped"
+						break search
+					}
+				}
+			}
+		}
 		if allUnauth {
-			w.Violationf("C11:unauth:packet-delivered:"+sigName(first), "a command from an unauthenticated connection made the server send a packet to %s(%s)\n%s", cc.name, r.who(cc.id), detail())
+			w.Violationf("C11:unauth:packet-delivered:"+firstName, "a command from an unauthenticated connection made the server send a packet to %s(%s)\n%s", cc.name, r.who(cc.id), detail())
 			return
 		}
 		for _, p := range cc.inbox {
@@ -1222,7 +1286,7 @@ func (r *c11run) judge(cmds []*c11sent, before, after *c11snap, how string) {
 				}
 			}
 			if !ok {
-				w.Violationf("C11:reach:forged-sender-delivered:"+sigName(first), "the packet delivered to %s names sender %q, which is not the identity of the sending connection\n%s", cc.name, p.CommandPacket.SenderId, detail())
+				w.Violationf("C11:reach:forged-sender-delivered:"+firstName, "the packet delivered to %s names sender %q, which is not the identity of the sending connection\n%s", cc.name, p.CommandPacket.SenderId, detail())
 				return
 			}
 		}
@@ -1239,13 +1303,13 @@ func (r *c11run) judge(cmds []*c11sent, before, after *c11snap, how string) {
 					}
 				}
 				if c11has(ot, id) && !sent {
-					w.Violationf("C11:reach:disclosed-to-receiver:"+sigName(first), "the packet delivered to %s(%s) contains %q of %s, to which the receiver is no party\n%s", cc.name, r.who(cc.id), id, o.name, detail())
+					w.Violationf("C11:reach:disclosed-to-receiver:"+firstName, "the packet delivered to %s(%s) contains %q of %s, to which the receiver is no party\n%s", cc.name, r.who(cc.id), id, o.name, detail())
 					return
 				}
 			}
 		}
 		if cc.id == 0 {
-			w.Violationf("C11:reach:delivered-to-unauth:"+sigName(first), "the server sent a packet to the unauthenticated transport %s\n%s", cc.name, detail())
+			w.Violationf("C11:reach:delivered-to-unauth:"+firstName, "the server sent a packet to the unauthenticated transport %s\n%s", cc.name, detail())
 			return
 		}
 		if c11FlagUnrelatedReach {
@@ -1256,7 +1320,7 @@ func (r *c11run) judge(cmds []*c11sent, before, after *c11snap, how string) {
 				}
 			}
 			if !rel {
-				w.Violationf("C11:reach:unrelated-client:"+sigName(first), "the server sent a packet to %s although no sender shares a mapping with it\n%s", r.who(cc.id), detail())
+				w.Violationf("C11:reach:unrelated-client:"+firstName, "the server sent a packet to %s although no sender shares a mapping with it\n%s", r.who(cc.id), detail())
 				return
 			}
 		}
@@ -1291,13 +1355,30 @@ func c11own(o *c11obj) string {
 // ---------------------------------------------------------------------------
 // composite steps: somebody else answers a pending request
 
-// forgedDNS: A asks the server to forward a DNS request to B (the socks mapping
-// A>B, or B named explicitly); while the server waits for B's answer, the drawn
-// connection sends a CommandResp with the same command id.
+// answerTarget picks the client whose answer is awaited in a composite step: B,
+// or T whose link to the server may be congested (small buffer: the server's
+// write of the request stays blocked until the harness reads).
+func (r *c11run) answerTarget(s *c11step) *c11conn {
+	b, t := r.conns[3], r.conns[5]
+	if s.target%2 == 1 && !t.closed {
+		return t
+	}
+	if b.closed && !t.closed {
+		return t
+	}
+	return b
+}
+
+// forgedDNS: A asks the server to forward a DNS request to a target client; the
+// drawn connection sends a CommandResp with the same command id twice: once
+// while the forward is still on its way to the target (nothing of it has been
+// read; on a congested link the server is still inside the write) and once
+// while the server waits for the target's answer.
 func (r *c11run) forgedDNS(s *c11step, z *c11conn, table []packet.CommandType) {
 	w := r.w
 	r.seq++
-	a, b := r.conns[2], r.conns[3]
+	a := r.conns[2]
+	b := r.answerTarget(s)
 	if a.closed || b.closed {
 		w.Probe("forged-dns.skipped")
 		return
@@ -1309,62 +1390,81 @@ func (r *c11run) forgedDNS(s *c11step, z *c11conn, table []packet.CommandType) {
 	name := c11name(t)
 	cid := fmt.Sprintf("c11-dns-%d", r.seq)
 	req := map[string]any{"target_client_id": b.id}
-	var ans map[string]any
-	marker := fmt.Sprintf("6.6.%d.%d", r.seq, s.n1%250)
 	if t == packet.DNSQuery {
 		req["query_id"], req["dns_server"], req["raw_query"] = "q"+cid, "10.0.0.53:53", []byte("c11")
-		ans = map[string]any{"query_id": "q" + cid, "success": true, "raw_answer": []byte(marker)}
 	} else {
 		req["domain"], req["qtype"] = "bank.example", 1
-		ans = map[string]any{"success": true, "ips": []string{marker}, "ttl": 60}
 	}
 	rb, _ := json.Marshal(req)
-	ab, _ := json.Marshal(ans)
-	amark := marker
-	if t == packet.DNSQuery {
-		// []byte is base64 in JSON; look for that form in what A receives
-		j, _ := json.Marshal([]byte(marker))
-		amark = strings.Trim(string(j), `"`)
+	answer := func(phase int) (*packet.CommandPacket, string) {
+		marker := fmt.Sprintf("6.%d.%d.%d", phase, r.seq, s.n1%250)
+		var ans map[string]any
+		amark := marker
+		if t == packet.DNSQuery {
+			ans = map[string]any{"query_id": "q" + cid, "success": true, "raw_answer": []byte(marker)}
+			// []byte is base64 in JSON; look for that form in what A receives
+			j, _ := json.Marshal([]byte(marker))
+			amark = strings.Trim(string(j), `"`)
+		} else {
+			ans = map[string]any{"success": true, "ips": []string{marker}, "ttl": 60}
+		}
+		ab, _ := json.Marshal(ans)
+		fp := &packet.CommandPacket{CommandType: t, CommandId: cid, CommandBody: string(ab)}
+		if s.forge&1 != 0 {
+			fp.SenderId = strconv.FormatInt(b.id, 10)
+		}
+		return fp, amark
 	}
 	r.drain()
 	r.clearInboxes()
 	a.cl.SendCommand(&packet.CommandPacket{CommandType: t, CommandId: cid, CommandBody: string(rb)})
 	w.Sleep(97 * time.Millisecond)
+	blocked := b.cl.Conn.Pending() > 0 && b.congested
+	fp1, mark1 := answer(1)
+	z.cl.SP.WritePacket(&packet.TransferPacket{PacketType: packet.CommandResp, CommandPacket: fp1}, false, 0)
+	w.Sleep(97 * time.Millisecond)
 	r.drain()
 	forwarded := len(b.inbox) > 0
-	fp := &packet.CommandPacket{CommandType: t, CommandId: cid, CommandBody: string(ab)}
-	if s.forge&1 != 0 {
-		fp.SenderId = strconv.FormatInt(b.id, 10)
-	}
-	z.cl.SP.WritePacket(&packet.TransferPacket{PacketType: packet.CommandResp, CommandPacket: fp}, false, 0)
+	w.Sleep(97 * time.Millisecond)
+	fp2, mark2 := answer(2)
+	z.cl.SP.WritePacket(&packet.TransferPacket{PacketType: packet.CommandResp, CommandPacket: fp2}, false, 0)
 	w.Sleep(6*time.Second + 311*time.Millisecond)
 	r.drain()
-	got := strings.Contains(c11text(a.inbox), amark)
-	r.logf("#%d A asks %s via B (forwarded=%v); %s(%s) answers with the same command id -> A received that answer: %v", r.seq, name, forwarded, z.name, r.who(z.id), got)
-	w.State("forged-" + name + "|" + z.name + fmt.Sprintf("|%v|%v", forwarded, got))
+	at := c11text(a.inbox)
+	got1, got2 := strings.Contains(at, mark1), strings.Contains(at, mark2)
+	r.logf("#%d A asks %s via %s (forwarded=%v, server blocked in the forward write=%v); %s(%s) answers with the same command id during the forward and again while the server waits -> A received the first answer: %v, the second: %v", r.seq, name, b.name, forwarded, blocked, z.name, r.who(z.id), got1, got2)
+	w.State("forged-" + name + "|" + z.name + "|" + b.name + fmt.Sprintf("|%v|%v|%v|%v", forwarded, blocked, got1, got2))
 	if forwarded {
 		r.nontr = true
 		w.Probe("forged-dns.pending")
 	}
-	if got && z == b {
+	if blocked {
+		w.Probe("forged-dns.answer-sent-while-forward-write-blocked")
+	}
+	if (got1 || got2) && z == b {
 		w.Probe("forged-dns.genuine-answer-delivered")
 	}
-	if got && z != b && z != a { // A answering its own question deceives nobody else
+	if (got1 || got2) && z != b && z != a { // A answering its own question deceives nobody else
 		cls := "stranger"
 		if z.id == 0 {
 			cls = "unauth"
 		}
-		w.Violationf("C11:forged-reply:"+name+":"+cls, "A's %s was forwarded to B; the answer sent on transport %s (identity %s) was accepted as B's answer and delivered to A\nA received:\n%s\nhistory:\n%s",
-			name, z.name, r.who(z.id), c11text(a.inbox), strings.Join(r.hist, "\n"))
+		if got1 {
+			cls += ":during-forward"
+		}
+		w.Violationf("C11:forged-reply:"+name+":"+cls, "A's %s was forwarded to %s; an answer sent on transport %s (identity %s) was accepted as the target's answer and delivered to A\nA received:\n%s\nhistory:\n%s",
+			name, b.name, z.name, r.who(z.id), at, strings.Join(r.hist, "\n"))
 	}
 }
 
-// forgedHTTP: the server has an HTTP proxy request pending at B; the drawn
-// connection sends an HTTPProxyResponse with that request id.
+// forgedHTTP: the server sends an HTTP proxy request to a target client; the
+// drawn connection sends an HTTPProxyResponse with that request id twice: while
+// the request is still being delivered (on a congested link the server is
+// still inside the write) and while the server waits for the answer.
 func (r *c11run) forgedHTTP(s *c11step, z *c11conn) {
 	w := r.w
 	r.seq++
-	b := r.conns[3]
+	b := r.answerTarget(s)
 	if b.closed {
 		w.Probe("forged-http.skipped")
 		return
@@ -1377,30 +1477,45 @@ func (r *c11run) forgedHTTP(s *c11step, z *c11conn) {
 	t := w.Spawn(fmt.Sprintf("http-proxy-%d", r.seq), func() {
 		resp, rerr = r.node.SM.SendHTTPProxyRequest(b.id, &httptypes.HTTPProxyRequest{RequestID: rid, Method: "GET", URL: "http://127.0.0.1:8080/private", Timeout: 5})
 	})
+	forge := func(phase int) string {
+		marker := fmt.Sprintf("forged-by-%s-%d-phase%d", z.name, r.seq, phase)
+		body, _ := json.Marshal(map[string]any{"request_id": rid, "status_code": 200, "body": []byte(marker)})
+		z.cl.SP.WritePacket(&packet.TransferPacket{PacketType: packet.CommandResp, CommandPacket: &packet.CommandPacket{CommandType: packet.HTTPProxyResponse, CommandId: rid, CommandBody: string(body)}}, false, 0)
+		return marker
+	}
+	w.Sleep(97 * time.Millisecond)
+	blocked := b.cl.Conn.Pending() > 0 && b.congested && !t.Done()
+	mark1 := forge(1)
 	w.Sleep(97 * time.Millisecond)
 	r.drain()
 	pending := len(b.inbox) > 0
-	marker := fmt.Sprintf("forged-by-%s-%d", z.name, r.seq)
-	body, _ := json.Marshal(map[string]any{"request_id": rid, "status_code": 200, "body": []byte(marker)})
-	z.cl.SP.WritePacket(&packet.TransferPacket{PacketType: packet.CommandResp, CommandPacket: &packet.CommandPacket{CommandType: packet.HTTPProxyResponse, CommandId: rid, CommandBody: string(body)}}, false, 0)
+	w.Sleep(97 * time.Millisecond)
+	mark2 := forge(2)
 	w.Sleep(6*time.Second + 311*time.Millisecond)
 	done := t.Done()
-	got := done && rerr == nil && resp != nil && string(resp.Body) == marker
-	r.logf("#%d server proxies an HTTP request to B (pending=%v); %s(%s) sends the response -> accepted: %v", r.seq, pending, z.name, r.who(z.id), got)
-	w.State("forged-http|" + z.name + fmt.Sprintf("|%v|%v", pending, got))
+	got1 := done && rerr == nil && resp != nil && string(resp.Body) == mark1
+	got2 := done && rerr == nil && resp != nil && string(resp.Body) == mark2
+	r.logf("#%d server proxies an HTTP request to %s (delivered=%v, server blocked in the write=%v); %s(%s) sends the response during delivery and again while the server waits -> accepted: first=%v second=%v", r.seq, b.name, pending, blocked, z.name, r.who(z.id), got1, got2)
+	w.State("forged-http|" + z.name + "|" + b.name + fmt.Sprintf("|%v|%v|%v|%v", pending, blocked, got1, got2))
 	if pending {
 		r.nontr = true
 		w.Probe("forged-http.pending")
 	}
-	if got && z == b {
+	if blocked {
+		w.Probe("forged-http.answer-sent-while-request-write-blocked")
+	}
+	if (got1 || got2) && z == b {
 		w.Probe("forged-http.genuine-answer-accepted")
 	}
-	if got && z != b {
+	if (got1 || got2) && z != b {
 		cls := "stranger"
 		if z.id == 0 {
 			cls = "unauth"
 		}
-		w.Violationf("C11:forged-reply:http_proxy_response:"+cls, "an HTTP proxy request was sent to B; the response sent on transport %s (identity %s) was accepted as B's\nhistory:\n%s",
-			z.name, r.who(z.id), strings.Join(r.hist, "\n"))
+		if got1 {
+			cls += ":during-send"
+		}
+		w.Violationf("C11:forged-reply:http_proxy_response:"+cls, "an HTTP proxy request was sent to %s; a response sent on transport %s (identity %s) was accepted as the target's\nhistory:\n%s",
+			b.name, z.name, r.who(z.id), strings.Join(r.hist, "\n"))
 	}
 }
